@@ -103,6 +103,8 @@ type fnTrans struct {
 	tupleVals map[ssa.Value][]Term
 	paramTV map[string]TV
 	verTop   map[string]Term
+	rangeIter map[*ssa.Range]Term
+	extClosureArgs []*ssa.MakeClosure
 	frameCache *frameSpec
 	wfSeen map[*ssa.BasicBlock]map[string]bool
 	lemmaOK  map[int]bool
@@ -586,6 +588,29 @@ func (f *fnTrans) lookupAt(b *ssa.BasicBlock, st *State, phiOverride map[string]
 				return TV{(&sv).loadNoSafety(a), deref(fv.Type())}, true
 			}
 		}
+		// loop-carried variables of enclosing loops (header phis that dominate b), innermost first
+		if b != nil {
+			var bestPhi *ssa.Phi
+			for hdr := range f.loops {
+				if !(hdr == b || hdr.Dominates(b)) {
+					continue
+				}
+				for _, ins := range hdr.Instrs {
+					phi, ok := ins.(*ssa.Phi)
+					if !ok {
+						break
+					}
+					if phi.Comment == name {
+						if _, seen := f.vals[phi]; seen && (bestPhi == nil || bestPhi.Block().Dominates(hdr)) {
+							bestPhi = phi
+						}
+					}
+				}
+			}
+			if bestPhi != nil && len(f.debug[name]) == 0 {
+				return TV{f.vals[bestPhi], bestPhi.Type()}, true
+			}
+		}
 		// address-taken locals (Alloc with that comment)
 		var best ssa.Value
 		var bestAddr bool
@@ -653,6 +678,23 @@ func (f *fnTrans) env(b *ssa.BasicBlock, st *State, extra map[string]TV) *Env {
 	e.emit = func(t Term) { f.factHere(t) }
 	e.topFor = f.topForVersion
 	e.wfSeen = f.wfSeenMap()
+	e.rangeIters = func(n int) (Term, string, bool) {
+		k := 0
+		for _, blk := range f.fn.Blocks {
+			for _, ins := range blk.Instrs {
+				if r, ok := ins.(*ssa.Range); ok {
+					if m, ok := r.X.Type().Underlying().(*types.Map); ok {
+						if k == n {
+							it, seen := f.rangeIter[r]
+							return it, f.w.VisitedHeap(m), seen
+						}
+						k++
+					}
+				}
+			}
+		}
+		return Term{}, "", false
+	}
 	if f.c != nil {
 		for _, l := range f.c.Lets {
 			ex, err := ParseSpecExpr(l[1])
@@ -748,6 +790,17 @@ func (f *fnTrans) loopMods(li *loopInfo) {
 				li.mods["G$allocTop"] = true
 				for _, h := range f.w.storeHeaps(ins) {
 					li.mods[h] = true
+				}
+			case *ssa.Next:
+				if rng, ok := ins.Iter.(*ssa.Range); ok {
+					if m, ok := rng.X.Type().Underlying().(*types.Map); ok {
+						li.mods[f.w.VisitedHeap(m)] = true
+					}
+				}
+			case *ssa.Range:
+				if m, ok := ins.X.Type().Underlying().(*types.Map); ok {
+					li.mods[f.w.VisitedHeap(m)] = true
+					li.mods["G$allocTop"] = true
 				}
 			case *ssa.MakeSlice, *ssa.MakeMap, *ssa.MakeClosure, *ssa.MakeInterface, *ssa.Convert:
 				for _, h := range f.instrAllocMods(ins) {
@@ -951,6 +1004,7 @@ func TranslateFn(w *World, fn *ssa.Function) *FnVC {
 		vals: map[ssa.Value]Term{}, at: map[*ssa.BasicBlock]Term{}, out: map[*ssa.BasicBlock]*State{},
 		edgeC: map[[2]int]Term{}, debug: map[string][]*ssa.DebugRef{}, claimed: map[string]bool{},
 		closures: map[ssa.Value]*ssa.MakeClosure{}, nOb: map[string]int{}, tupleVals: map[ssa.Value][]Term{},
+		rangeIter: map[*ssa.Range]Term{},
 	}
 	defer func() {
 		if r := recover(); r != nil {
@@ -981,6 +1035,10 @@ func TranslateFn(w *World, fn *ssa.Function) *FnVC {
 				}
 			}
 		}
+	}
+	w.extraTypes = map[string]types.Type{}
+	for _, fv := range fn.FreeVars {
+		w.extraTypes[fv.Name()] = deref(fv.Type())
 	}
 	f.analyzeLoops()
 	f.computeAnchors()
